@@ -8,7 +8,7 @@ git -C /repo worktree add --detach -q "$W" HEAD || exit 3
 case "$change" in
   revert:*) git -C "$W" revert --no-commit "${change#revert:}" >/dev/null 2>&1 || { echo "revert failed"; git -C /repo worktree remove --force "$W"; exit 3; } ;;
   sed:*) f=$(echo "$change" | cut -d: -f2); e=$(echo "$change" | cut -d: -f3-); sed -i "$e" "$W/$f"; git -C "$W" diff --quiet && { echo "sed changed nothing"; git -C /repo worktree remove --force "$W"; exit 3; } ;;
-  *) git -C "$W" apply "$change" || { echo "apply failed"; git -C /repo worktree remove --force "$W"; exit 3; } ;;
+  *) case "$change" in /*) ;; *) change="$PWD/$change";; esac; git -C "$W" apply "$change" || { echo "apply failed"; git -C /repo worktree remove --force "$W"; exit 3; } ;;
 esac
 rc_all=0
 for c in "$@"; do
